@@ -9,7 +9,7 @@ import (
 	"strings"
 )
 
-func (P *Prog) recDefs() string {
+func (P *Prog) recDefs(reveal func(name string) bool) string {
 	var names []string
 	for n := range P.usedRec {
 		names = append(names, n)
@@ -46,13 +46,18 @@ func (P *Prog) recDefs() string {
 		decls = append(decls, parts[0])
 		if len(parts) > 1 {
 			axioms = append(axioms, parts[1])
+		} else {
+			axioms = append(axioms, "")
 		}
 	}
 	for _, d := range decls {
 		b.WriteString(d)
 		b.WriteByte('\n')
 	}
-	for _, a := range axioms {
+	for i, a := range axioms {
+		if reveal != nil && !reveal(names[i]) {
+			continue
+		}
 		b.WriteString(a)
 		b.WriteByte('\n')
 	}
@@ -95,4 +100,27 @@ func (P *Prog) buildRecDef(sf *SpecFunc) string {
 	decl := fmt.Sprintf("(declare-fun %s (%s) %s)", sf.Name, strings.Join(sorts, " "), ret)
 	ax := fmt.Sprintf("(assert (forall (%s) (! (= %s %s) :pattern (%s))))", strings.Join(binders, " "), app, x.termOf(body), app)
 	return decl + "\n" + ax
+}
+
+// mentionsTransitively: the goal mentions the opaque function name directly, or through the
+// definition of another opaque function it mentions.
+func (P *Prog) mentionsTransitively(goal, name string) bool {
+	seen := map[string]bool{}
+	var visit func(text string) bool
+	visit = func(text string) bool {
+		if containsSym(text, name) {
+			return true
+		}
+		for n, def := range P.recCache {
+			if seen[n] || !containsSym(text, n) {
+				continue
+			}
+			seen[n] = true
+			if visit(def) {
+				return true
+			}
+		}
+		return false
+	}
+	return visit(goal)
 }
